@@ -292,7 +292,7 @@ PROPS = {
             # freedom of everything it executes); thorough: every harness of every unit
             H(S, 'c09_sync_one_step'), H(S, 'c09_delay_resp'), H(S, 'c14_pdelay_timestamp'),
             H(M, 'c10_delay_resp_for_delay_req'), H(M, 'c10_follow_up_for_sync_timestamp'),
-            ANNOUNCE_RX_PARENT, ANNOUNCE_RX_ACCEPT, RECEIPT_TIMER, APPLY, ANNOUNCE_TX0, ANNOUNCE_TX1, ANNOUNCE_TX,
+            ANNOUNCE_RX_PARENT, ANNOUNCE_RX_ACCEPT, RECEIPT_TIMER, APPLY, ANNOUNCE_TX0, ANNOUNCE_TXP, ANNOUNCE_TX2, ANNOUNCE_TX1, ANNOUNCE_TX, th(PATH_TRACE1),
             H(S, 'c03_finding_sync_correction_exceeds_receive_time', finding='F-C03-wire-time-underflow'),
             H(S, 'c03_finding_follow_up_correction_below_zero', finding='F-C03-wire-time-underflow-follow-up', tiers=TH),
             H(F, 'c06_register_preserves_valid__empty', bounded=_fm_bound), H(F, 'c06_register_at_capacity', bounded='concrete instance: 8 records, fixed newcomer identity'),
